@@ -63,6 +63,70 @@ def run():
     return {"confirmed": False}
 
 
+FUSED_ALG = '''\
+program fuse_write_then_inc
+  use constants_mod,          only: r_def
+  use field_mod,              only: field_type
+  use testkern_write_any_mod, only: testkern_write_any_type
+  use testkern_mod,           only: testkern_type
+  implicit none
+  type(field_type) :: f1, f2, m1, m2, g1
+  real(r_def)      :: a
+  call invoke( testkern_write_any_type(g1, f2),     &
+               testkern_type(a, f1, f2, m1, m2) )
+end program fuse_write_then_inc
+'''
+
+
+def fused_loop():
+    """two kernels fused into one loop, the incrementing kernel second:
+    has_inc_arg must see it and the OpenMP validators must refuse the
+    uncoloured loop"""
+    import tempfile
+    import psyclone
+    from psyclone.configuration import Config
+    from psyclone.core import AccessType
+    from psyclone.domain.lfric import LFRicLoop
+    from psyclone.domain.lfric.transformations import LFRicLoopFuseTrans
+    from psyclone.parse.algorithm import parse
+    from psyclone.psyGen import PSyFactory
+    from psyclone.transformations import (DynamoOMPParallelLoopTrans,
+                                          Dynamo0p3OMPLoopTrans,
+                                          TransformationError)
+    kdir = os.path.join(os.path.dirname(psyclone.__file__), "tests",
+                        "test_files", "dynamo0p3")
+    Config.get().api = "lfric"
+    with tempfile.TemporaryDirectory() as tmp:
+        path = os.path.join(tmp, "fuse_write_then_inc.f90")
+        with open(path, "w", encoding="utf-8") as fout:
+            fout.write(FUSED_ALG)
+        _, info = parse(path, api="lfric", kernel_paths=[kdir])
+    psy = PSyFactory("lfric", distributed_memory=False).create(info)
+    sched = psy.invokes.invoke_list[0].schedule
+    loops = sched.walk(LFRicLoop)
+    LFRicLoopFuseTrans().apply(loops[0], loops[1], {"same_space": True})
+    loop = sched.walk(LFRicLoop)[0]
+    spec = any(arg.access in (AccessType.INC, AccessType.READINC)
+               for k in loop.coded_kernels() for arg in k.arguments.args)
+    got = loop.has_inc_arg()
+    if got != spec:
+        return {"confirmed": True,
+                "input": {"algorithm": FUSED_ALG,
+                          "transformation": "LFRicLoopFuseTrans(same_space)"},
+                "observed": f"has_inc_arg() = {got} on the fused loop whose "
+                f"second kernel increments a field (expected {spec})"}
+    for trans in (DynamoOMPParallelLoopTrans(), Dynamo0p3OMPLoopTrans()):
+        try:
+            trans.validate(loop)
+        except TransformationError:
+            continue
+        return {"confirmed": True, "input": {"algorithm": FUSED_ALG},
+                "observed": f"{trans.name} accepts the uncoloured fused "
+                "loop although one of its kernels increments a field on a "
+                "continuous space"}
+    return {"confirmed": False}
+
+
 def colour_inside_acc():
     """Dynamo0p3ColourTrans accepts a loop that already sits inside an
     OpenACC parallel region: the loop over colours ends up inside it."""
